@@ -101,7 +101,7 @@ class JWERegistry:
         return registry[name]
 
     def _check_algorithm(self, name: str, registry: dict[str, t.Any]) -> None:
-        if name not in registry:
+        if not isinstance(name, str) or name not in registry:
             raise UnsupportedAlgorithmError(f'Algorithm of "{name}" is not supported')
 
         if self.allowed:
